@@ -986,13 +986,33 @@ def list_new(env):
     v = rng.choice(["i", "j", "e"])
     while v in env.vars or v in env.used:
         v = v + "x"
+    # the comprehension variable lives in the comprehension only: every third one re-uses the name of a variable that exists
+    # already (of any type - the variable keeps its type and its declaration; harness/c06_comp.py is the systematic part)
+    outer = [n for n in env.vars if n != name and ok_name(n)]
+    if outer and rng.random() < 0.35:
+        v = rng.choice(outer)
+        env.feat("list comprehension over the name of an outer variable (" + env.vars[v].split("[")[0] + ")")
     rngarg = lit_int(rng) if rng.random() < 0.6 or not env.vars_of("int") else rng.choice(env.vars_of("int"))
-    if rng.random() < 0.7:
-        body = rng.choice([f"{v} * {v}", f"{v} + 1", f"{v}", f"{v} * 2 + {lit_int(rng)}", f"({v} % 3)"])
+    k2 = rng.random()
+    if k2 < 0.25:             # range() with two / three arguments, a negative step
+        lo, hi = rng.randint(0, 3), rng.randint(4, 9)
+        rngarg = rng.choice([f"{lo}, {hi}", f"{lo}, {hi}, 2", f"{hi}, {lo}, -1", f"{lo}, {rngarg}"])
+        env.feat("list comprehension over range() with 2-3 arguments")
+    k3 = rng.random()
+    if k3 < 0.55:
+        body = rng.choice([f"{v} * {v}", f"{v} + 1", f"{v}", f"{v} * 2 + {lit_int(rng)}", f"({v} % 3)", f"({v} if {v} > 1 else 0)"])
         env.vars[name] = "list[int]"
-    else:
-        body = rng.choice([f"{v} * 0.5", f"{v} / 2.0"])
+    elif k3 < 0.75:
+        body = rng.choice([f"{v} * 0.5", f"{v} / 2.0"] + [f"{v} * {f}" for f in env.vars_of("float") if f != v][:2])
         env.vars[name] = "list[float]"
+    elif k3 < 0.9:
+        body = rng.choice([f"str({v})", gen_str_literal(env), f"str({v}) + {gen_str_literal(env)}"] + [f"str({v}) + {t}" for t in env.vars_of("String") if t != v][:2])
+        env.vars[name] = "list[String]"
+        env.feat("list comprehension of strings")
+    else:
+        body = rng.choice([f"{v} > 1", f"{v} % 2 == 0"])
+        env.vars[name] = "list[bool]"
+        env.feat("list comprehension of bools")
     env.feat("list comprehension")
     return [f"{name} = [{body} for {v} in range({rngarg})]"]
 
@@ -1614,9 +1634,28 @@ def shapes_of(src: str):
         return {"not-python"}
     fdefs = [n for n in tree.body if isinstance(n, ast.FunctionDef)]
     order = {f.name: i for i, f in enumerate(fdefs)}
+    # a function that assigns (without a `global` statement) a name that is also a module-level variable, and evidently a value
+    # of ANOTHER type (both values literals): in Python a local of the function, in the sketch an assignment to the global
+    # (F-C06-fn-local-shadows-global).  (With values of one type the sketch compiles: the generator writes globals that way.)
+    def _lit_kind(v):
+        if isinstance(v, ast.Constant):
+            return type(v.value).__name__
+        if isinstance(v, ast.List):
+            return "list"
+        return None
+    mod_kind = {}
+    for st in tree.body:
+        for n in ast.walk(st) if not isinstance(st, ast.FunctionDef) else []:
+            if isinstance(n, ast.Assign) and len(n.targets) == 1 and isinstance(n.targets[0], ast.Name) and _lit_kind(n.value):
+                mod_kind.setdefault(n.targets[0].id, _lit_kind(n.value))
     for f in fdefs:
+        globs = {g for n in ast.walk(f) if isinstance(n, ast.Global) for g in n.names}
+        params = {a.arg for a in f.args.args}
         for n in ast.walk(f):
-            pass
+            if isinstance(n, ast.Assign) and len(n.targets) == 1 and isinstance(n.targets[0], ast.Name):
+                x = n.targets[0].id
+                if x in mod_kind and x not in globs and x not in params and _lit_kind(n.value) not in (None, mod_kind[x]):
+                    out.add("fn-local-shadows-global")
     # a call of a function defined further down whose result is not evidently an int or nothing: the caller is translated before
     # the callee's return type is known and treats the result as int (F-C06-fn-forward-call-return-type)
     numeric = _evidently_numeric_functions(tree, fdefs)
